@@ -221,12 +221,10 @@ namespace occa {
           launchBlock.add(pathSmnt.init->clone(&launchBlock));
 
           const bool isOuter = pathSmnt.hasAttribute("outer");
-          outerCount -= isOuter;
-          innerCount -= !isOuter;
 
-          const int index = (isOuter
-                             ? outerCount
-                             : innerCount);
+          // Use the same index as the device code (replaceOccaFor): explicit
+          // @outer(N) / @inner(N) arguments do not have to follow the nesting order
+          const int index = oklForSmnt.oklLoopIndex();
           token_t *source = pathSmnt.source;
           const std::string &name = (isOuter
                                      ? "outer"
